@@ -5,7 +5,7 @@ from vlib import *
 
 ENTRIES = ["arc", "arc_overaligned", "arc_slice", "arc_str", "arc_dyn", "thin", "thin_with_arc_clone", "offset_clone", "offset_clone_arc",
            "offset_with_arc_clone", "with_raw_offset_arc_clone", "borrow_clone_arc", "borrow_with_arc_clone", "union_first", "union_second",
-           "refcnt_inc"]
+           "refcnt_inc", "arc_raced2", "arc_raced3"]
 # start class -> value of the W = 4 bit model (MAX = 7)
 CLASSES = {"1": 1, "2": 2, "2^31": 3, "2^32": 4, "imax-1": 6, "imax": 7, "imax+1": 8, "imax+2": 9, "umax-1": 14, "umax": 15}
 REAL = {"1": 1, "2": 2, "2^31": 1 << 31, "2^32": 1 << 32, "imax-1": (1 << 63) - 2, "imax": (1 << 63) - 1, "imax+1": 1 << 63,
@@ -36,7 +36,7 @@ def overflow_stage(prop, tier, name):
         exe = build_harness(cfgname)
         for ent in ENTRIES:
             for cls, mv in CLASSES.items():
-                want = table[str(mv)] if isinstance(table, dict) else table[mv]
+                want0 = want = table[str(mv)] if isinstance(table, dict) else table[mv]
                 # the process must die whatever its environment: also with a standard error stream that rejects every write
                 for errname in (("pipe",) if want == "ok" else ("pipe", "/dev/full")):
                     if errname == "pipe":
@@ -57,13 +57,25 @@ def overflow_stage(prop, tier, name):
                     if "CALLING" not in o:
                         raise ToolError("overflow child did not reach the call: %s" % o[-200:])
                     after = o.split("CALLING", 1)[1]
+                    want = want0
+                    if "ADVERSARY-FIRED" in after:
+                        # a second clone (another thread's) got in between two count operations of this one: the count
+                        # this clone finally increments is one higher
+                        tag += ", another clone between its count operations"
+                        want = "abort" if want0 != "ok" or mv + 1 > 15 else (table[str(mv + 1)] if isinstance(table, dict) else table[mv + 1])
+                        if "ADVERSARY-RETURNED" not in after:
+                            want = "abort"     # the adversary's own clone ran into the limit
+                    if want != "ok" and cfgname == "a" and "PANIC-HOOK-RAN" in after:
+                        bad("the process went through the panic machinery (the panic hook ran) although the count had passed the limit")
+                        continue
                     if want == "ok":
                         if r.returncode != 0 or "RETURNED" not in after:
                             bad("a clone below the limit did not return (exit %s, %s)" % (r.returncode, after.strip()[:80]))
                         else:
                             c = int(after.split("count=")[1].split()[0], 16)
-                            if c != REAL[cls] + 1:
-                                bad("the clone changed the count from %#x to %#x, not by exactly one" % (REAL[cls], c))
+                            exp = REAL[cls] + (2 if "ADVERSARY-FIRED" in after else 1)
+                            if c != exp:
+                                bad("the count went from %#x to %#x, expected %#x (one per clone)" % (REAL[cls], c, exp))
                     else:
                         if "RETURNED" in after:
                             bad("the clone returned a handle although the count had passed the limit (%s)" % after.strip()[:80])
